@@ -6,5 +6,6 @@ CONSTANT MetricVals <- ValsQuick
 CONSTANT Deltas <- DeltasQuick
 CONSTANT FullOrders <- NoOrders
 CONSTANT Rotations <- RotQuick
+CONSTANT ScaledOrders <- NoOrders
 CONSTANT Deviation = "ColumnsInDocumentedOrder"
 INVARIANT RewardIsDocumentedCombination
